@@ -22,6 +22,21 @@ def tlc_cmd(spec, cfg, workers, metadir, extra=(), heap="8g", simulate=None, dep
     return cmd
 
 
+class CObs:
+    """what is kept of the observation shipped with an edge: its schedule text (ghost keys removed) and the ghost verdicts.  Edges into
+    the same state share one object (a million-edge graph of parsed JSON dictionaries does not fit in memory)."""
+    __slots__ = ("text", "bad", "done", "taints")
+
+    def get(self, k, default=None):
+        if k == "bad":
+            return self.bad
+        if k == "done":
+            return self.done
+        if k.startswith("taint"):
+            return k in self.taints
+        return default
+
+
 class Graph:
     def __init__(self):
         self.ids = {}          # fp pair -> node id
@@ -30,6 +45,16 @@ class Graph:
         self.edges = []        # (u, v, actor, label, obs)
         self.seen = set()
         self.partial = False   # from simulation: terminal nodes are not meaningful
+        self._ocache = {}
+
+    def compact(self, obs):
+        text = fmt_obs(obs, [k for k in obs.keys() if k not in GHOST_KEYS])
+        key = (text, tuple(obs.get("bad", ())), obs.get("done"), tuple(k for k in GHOST_KEYS if k.startswith("taint") and obs.get(k)))
+        c = self._ocache.get(key)
+        if c is None:
+            c = CObs(); c.text, c.bad, c.done, c.taints = key
+            self._ocache[key] = c
+        return c
 
     def node(self, a, b):
         k = (a, b)
@@ -42,13 +67,12 @@ class Graph:
 
     def add_edge(self, rec):
         u = self.node(rec[1], rec[2]); v = self.node(rec[3], rec[4])
-        obs = rec[7]
-        key = (u, v, rec[5], rec[6])
+        key = (u, v, rec[5], sys.intern(rec[6]))
         if key in self.seen:
             return
         self.seen.add(key)
         self.out[u].append(len(self.edges))
-        self.edges.append((u, v, rec[5], rec[6], obs))
+        self.edges.append((u, v, rec[5], key[3], self.compact(rec[7])))
 
 
 def run_tlc_graph(spec, cfg, workers=8, metadir=None, timeout=3600, cwd=None, keep_log=None, env=None, simulate=None, sim_seed=1):
@@ -187,6 +211,9 @@ def build_tours(g, max_len=100000, cap_tours=None):
 
 
 def fmt_obs(obs, keys=None):
+    if isinstance(obs, CObs):
+        return obs.text
+
     def f(v):
         if v is True:
             return "1"
@@ -219,8 +246,8 @@ def write_schedule(path, g, tours, init_text, obs_fmt=fmt_obs, init_of=None):
                 # follow the last step are not in the graph, so the state after it cannot be compared
                 u, v, actor, label, obs = g.edges[t[-1]]
                 out[-1] = "S %d %s *\n" % (actor, label)
-            last = g.edges[t[-1]][4] if t else {}
-            taints = [k for k in GHOST_KEYS if k.startswith("taint") and isinstance(last, dict) and last.get(k)]
+            last = g.edges[t[-1]][4] if t else None
+            taints = [k for k in GHOST_KEYS if k.startswith("taint") and last is not None and last.get(k)]
             out.append("E %s\n" % " ".join(taints) if taints else "E\n")
             f.write("".join(out))
     return sum(len(t) for t in tours)
@@ -252,6 +279,8 @@ def run_tlc_sim(spec, cfg, num, depth, workers=4, seed=1, timeout=1800, cwd=None
 
 
 def fmt_obs_noghost(obs):
+    if isinstance(obs, CObs):
+        return obs.text
     return fmt_obs(obs, [k for k in obs.keys() if k not in GHOST_KEYS])
 
 
